@@ -35,6 +35,9 @@ func TestExplore(t *testing.T) {
 		}
 		r := g.exec(q)
 		fmt.Printf("Q[%s] %s\n  rpcs=%v err=%q\n  %s\n", name, q, r.RPCs, r.Err, r.Body)
+		if r.Stack != "" && os.Getenv("C20_STACK") != "" {
+			fmt.Println(r.Stack)
+		}
 	}
 }
 
@@ -95,5 +98,26 @@ func TestPlan(t *testing.T) {
 			b, _ := json.MarshalIndent(p.Calls, "  ", " ")
 			fmt.Println(string(b))
 		}
+	}
+}
+
+func TestSites(t *testing.T) {
+	if os.Getenv("C20_SITES") == "" {
+		t.Skip()
+	}
+	for _, q := range strings.Split(os.Getenv("C20_SITES"), ";;") {
+		name := "plain"
+		if strings.HasPrefix(q, "fed:") {
+			name, q = "fed", q[4:]
+		}
+		w, err := worldByName(name)
+		if err != nil {
+			t.Fatal(err)
+		}
+		p, err := parseOp(w, q)
+		if err != nil {
+			t.Fatal(err)
+		}
+		fmt.Println(q, "\n  drop:", w.aliasDropSites(p), "\n  multi:", w.typenameMultiSites(p), "\n  enum:", w.hasRepeatedEnumArg(p), "nullparent:", w.resolverUnderNullable(p))
 	}
 }
